@@ -66,15 +66,19 @@ def dimension_gate(ctx, rule="R02.1"):
     # the checked value is the stored value: no reassignment of `dim` between check and store; store is int(dim)
     idx_check = idx_store = None
     reassigned_after = False
+    check_args = []
     for i, st in enumerate(sd.body):
-        t = ast.unparse(st)
-        if "model.check_dim(dim)" in t:
-            idx_check = i
+        for n in ast.walk(st):
+            if isinstance(n, ast.Call) and isinstance(n.func, ast.Attribute) and n.func.attr == "check_dim":
+                idx_check = i
+                check_args.append(ast.unparse(n.args[0]) if len(n.args) == 1 and not n.keywords else ast.unparse(n))
         if norm_stmt(st).startswith("model._dim = "):
             idx_store = i
             store_txt = norm_stmt(st)
     if idx_check is None or idx_store is None:
         raise AnalysisError("anchor vanished: check_dim call / _dim store in set_dim")
+    # the model works in `dim` dimensions (for metric spatio-temporal models time is one more Euclidean axis): that is the number to validate
+    ctx.check(check_args == ["dim"], rule, site, "check_dim validates exactly the dimension that is stored and used (argument: %s)" % check_args, "checked-value")
     for st in sd.body[idx_check:idx_store]:
         for n in ast.walk(st):
             if isinstance(n, ast.Assign) and any(isinstance(t, ast.Name) and t.id == "dim" for t in n.targets):
